@@ -87,7 +87,15 @@ def weighted_base(index):
 
 
 def in_weighting(e, wcls, method="forward") -> bool:
-    return wcls is not None and e["function"].startswith(wcls.qualname + "." + method)
+    """The event belongs to the weighting's computation: emitted in a method of the weighting class (forward or a helper method
+    it calls) or in a module-level function of the module that defines it (an extracted helper)."""
+    if wcls is None:
+        return False
+    f = e["function"]
+    if f.startswith(wcls.qualname + "."):
+        return True
+    mod = wcls.module.name
+    return f.startswith(mod + ".") and "." not in f[len(mod) + 1:]
 
 
 def returning(run: ForwardRun):
